@@ -316,6 +316,7 @@ def check_spellings(case):
 
 # ------------------------------------------------------------------------------------------------ time of day
 
+TZ9 = datetime.timezone(datetime.timedelta(hours=9))
 HOURS = [0, 4, 8, 12, 16, 20]
 TBOUNDS = [None] + list(range(0, 24, 2))          # hours; even multiples of 4 are on the grid
 
@@ -329,6 +330,8 @@ def gen_tod(tier):
                 yield {'pts': pts, 'kind': kind}
             if r in ((3, 6) if tier == 'quick' else (1, 2, 3, 4, 5, 6)):
                 yield {'pts': pts, 'kind': 'series', 'sub': True}            # the sub-second grid
+            if r in ((2, 5) if tier == 'quick' else (1, 2, 3, 4, 5, 6)):
+                yield {'pts': pts, 'kind': 'series', 'tz': True}             # a tz-aware index (+09:00): the time of day is the row's own wall clock
     if tier == 'thorough':
         # every subset of the 12 points (Series); the symmetric ones were done above
         for m in range(1 << 12):
@@ -365,6 +368,8 @@ def check_tod(case):
         grid = [datetime.time(h, 0) for h in HOURS]
         bounds = [None if h is None else datetime.time(h, 0) for h in TBOUNDS]
     stamps = [datetime.datetime.combine((BASE + (i // 6) * DAY).date(), grid[i % 6]) for i in pts]
+    if case.get('tz'):
+        stamps = [t.replace(tzinfo=TZ9) for t in stamps]
     present = set(grid[i % 6] for i in pts)
     subj = _Subject(kind, stamps, pts)
     default = _default_brackets()
@@ -386,7 +391,7 @@ def check_tod(case):
                     keep = [_keep(t.time(), lb, ub, lc, uc) for t in stamps]
                 label = 'df_slice(%s %s, %s)' % (kind, [str(t)[5:13] if not case.get('sub') else str(t)[5:] for t in stamps],
                                                  '(%s, %s)' % (lb, ub) if spell == 'tuple' else '%s, %s, %r' % (lb, ub, oc))
-                sig = dict(oc=oc, kind=kind, wrap=wrap, spell='tuple' if spell == 'tuple' else 'args', lb='none' if lh is None else 'on-point' if lh in present else 'off-point',
+                sig = dict(oc=oc, kind=kind, wrap=wrap, spell='tuple' if spell == 'tuple' else 'args', tz=bool(case.get('tz')), lb='none' if lh is None else 'on-point' if lh in present else 'off-point',
                            ub='none' if uh is None else 'on-point' if uh in present else 'off-point', empty_index=not pts)
                 try:
                     res = df_slice(subj.obj, (lb, ub)) if spell == 'tuple' else df_slice(subj.obj, lb, ub, oc)
